@@ -176,6 +176,11 @@ pub fn match_bed_and_breakfast(
         return Ok(results);
     }
 
+    // Same Day reservations are evaluated afresh for each disposal's look-ahead: the
+    // shares a future day needs for its own disposals stay reserved however many
+    // earlier disposals look at that day (claims already made are in `future_consumption`).
+    same_day_reservations.clear();
+
     // Track cumulative ratio effect from splits/unsplits between sell and potential buys
     let mut cumulative_ratio_effect = Decimal::ONE;
 
